@@ -124,6 +124,7 @@ def load(R):
         return {k: v[0] for k, v in R.ufs.items()}
     R.path_init.append(unwrap_axioms)
     R.touch_attrs.update({"__wrapped__", "fn", "__code__"})
+    R.spec("OUTER", ["fn"], "fn.fn if isinstance(fn, MementoFunctionType) else fn")
     R.spec("TARGET", ["fn"], "innermost(fn.fn if isinstance(fn, MementoFunctionType) else fn)")
     code_views = []
     for a in BEH_CODE:
@@ -138,7 +139,10 @@ def load(R):
                ensures=code_views + [
                    # default values of positional and keyword-only parameters are behaviour: they must be part of what is hashed
                    "implies(has_attr(TARGET(fn), '__code__'), VIEWED(TARGET(fn).__defaults__))",
-                   "implies(has_attr(TARGET(fn), '__code__'), VIEWED(TARGET(fn).__kwdefaults__))"],
+                   "implies(has_attr(TARGET(fn), '__code__'), VIEWED(TARGET(fn).__kwdefaults__))",
+                   # every layer of a functools.wraps chain is code that runs when the function is called ("edits to function bodies" of plain helper
+                   # functions of the program): the body of the outermost layer must be part of what is hashed, not only that of the innermost one
+                   "implies(has_attr(OUTER(fn), '__code__') and isinstance(OUTER(fn).__code__, CodeType), VIEWED(decoded(b64(OUTER(fn).__code__.co_code))))"],
                loops={1: ["same(innermost(fn), TARGET(fn0))", "fn is not None", "forall(obj, lambda x: implies(old(x in ghost('hashed')), x in ghost('hashed')))"]},
                labels={"asserts_assumed": True, "entry_snapshot": {"fn0": "fn"}},
                modifies=["ghost:hashed"])
